@@ -1187,7 +1187,7 @@ def run(ctx):
         'under a repeated parent / group, and as an {expression} attribute value; oracle: output text = the payload with escapes '
         'resolved, inner braces kept, every counter replaced by its value in copy i of N (1 outside repeaters); plus the front-end '
         'oracle (tokens in order, closing brace = last character, abbreviation tree per copy). (runs:*) RUNS OF TEXT PARTS on one unit: '
-        '`name{T1}{T2}`, `name{T1}.c#i[a=b]{T2}{T3}`, up to 4 texts, bare `{T1}{T2}`, each text EMPTY (`{}`, 40 %), blank (space, tab, NBSP, a '
+        '`name{T1}{T2}`, `name{T1}.c#i[a=b]{T2}{T3}`, up to 4 texts, bare `{T1}{T2}`, each text EMPTY (`{}`, 40 percent), blank (space, tab, NBSP, a '
         'lone line break) or a random payload, every combination of 8 basic first/second texts swept with and without attribute parts '
         'between them, alone / under a parent / in a group / in a repeated group / followed by `+q` `>i` `*2` `^q`; a unit has ONE text, each '
         'further `{...}` is a text node of its own following it: expected `<name attrs>T1</name>T2T3` whatever is empty; with wrap '
